@@ -53,6 +53,11 @@ def hostile(tier, seed):
     # mesh options differing from equilibrium options -> must be rejected
     api("mesh-differs-nx", must_reject=True, mesh_opts_override={"nx_core": 4})
     api("mesh-differs-orth", must_reject=True, mesh_opts_override={"orthogonal": False})
+    # a combination the documentation says is unsupported (the same non-orthogonal spec with the
+    # default curvature_type is the corpus case cdn-nonorth and generates)
+    nx = cases.tok("cdn", s=1, fs=1, orth=False, wall="slant", guards=0, tag="hostile-nonorth-xyderiv", curvature_type="curl(b/B) with x-y derivatives")
+    nx.update(hostile=True, c12_class="hostile|api", must_reject=True, timeout=900)
+    out.append(nx)
     if tier == "thorough":
         api("mesh-differs-guards", must_reject=True, mesh_opts_override={"y_boundary_guards": 2})
         api("mesh-differs-interp", must_reject=True, mesh_opts_override={"psi_interpolation_method": "dct"})
